@@ -29,7 +29,7 @@ REPORT = ['modules', 'evaluations', 'accept_probes', 'reject_probes_encode', 're
           'bound:reference', 'bound:literal', 'via_typeref', 'out_of_root_accepted', 'carved_out']
 FLOORS = {'quick': {'accept_probes': 10000, 'reject_probes_encode': 5000, 'reject_probes_decode': 1500},
           'thorough': {'accept_probes': 40000, 'reject_probes_encode': 20000, 'reject_probes_decode': 6000}}
-TIMEOUT = {'quick': 1800, 'thorough': 14000}
+TIMEOUT = {'quick': 1800, 'thorough': 5400}
 
 
 def shards(tier):
@@ -161,7 +161,12 @@ def run_shard(ctx):
                             continue
                         try:
                             enc = bytes(spec.encode(name, v2, check_constraints=False))
-                            back = spec.decode(name, enc)
+                            back = core.guarded(lambda: spec.decode(name, enc), 20)
+                        except core.CaseTimeout:
+                            # an out-of-range value written without checking can come back as a huge quantity of
+                            # zero-width list elements: termination is C08's business (known finding there)
+                            st.inc('decode_probe_does_not_terminate_in_20s')
+                            continue
                         except Exception:
                             st.inc('decode_probe_not_encodable')
                             continue
@@ -173,12 +178,14 @@ def run_shard(ctx):
                         case = {'key': key, 'text': gs.text, 'type': name, 'codec': codec, 'value': core.jsonable(v2),
                                 'expect': 'reject_decode', 'path': list(path)}
                         try:
-                            spec.decode(name, enc, check_constraints=True)
+                            core.guarded(lambda: spec.decode(name, enc, check_constraints=True), 60)
                             ctx.violation('out_of_constraint_value_accepted_by_decode', case,
                                           {'constraint': what, 'side': side, 'node_kind': r.base.kind,
                                            'path': '.'.join(str(x) for x in path)})
                         except at.ConstraintsError:
                             pass
+                        except core.CaseTimeout:
+                            st.inc('decode_probe_does_not_terminate_in_20s')
                         except Exception as e:
                             ctx.violation('decode_with_check_raises_other_error', case, {'error': common.short_exc(e)})
                     if len(st.samples) < 3:
